@@ -268,6 +268,11 @@ class PbModel:
                 raise Unsupported("map rule: the element expression is not a call to an allocate-only contract")
             if not (res.k == "ref" and (res.cls or "").startswith("pb:")):
                 raise Unsupported("map rule: element is not a message")
+            if res.cls != "pb:" + f["type"]:
+                # protobuf rejects a message of another type (TypeError): every element would raise
+                from .symex import Exc
+                eng.exc_paths.append((s, Exc("TypeError")))
+                continue
             changed = {k: arr for k, arr in s.heap.items() if k not in heap0 or not z3.eq(arr, heap0[k])}
             try:
                 ev = to_val(elem)
@@ -412,6 +417,11 @@ class PbModel:
                     res = eng.eval(last.value.value, s2)
                     if not (res.k == "ref" and (res.cls or "").startswith("pb:")):
                         raise Unsupported("map rule: element is not a message")
+                    if res.cls != "pb:" + self.fdef(msg, attr)["type"]:
+                        from .symex import Exc
+                        s2.env = saved[1]
+                        eng.exc_paths.append((s2, Exc("TypeError")))
+                        continue
                     try:
                         ev = to_val(elem)
                     except Unsupported:
